@@ -1,3 +1,83 @@
-From KS Require Import lib.Base model.ReadPath.
+(* C03 - Fetch returns exactly the acknowledged bytes, in order.
+   Only statements closed by [exact]; proofs live in proofs/ReadPathProofs.v.
+   The model (model/ReadPath.v) is of the tree with fixes/C03-flush-window-read-order.patch
+   (and fixes/C04-find-index-entry-floor.patch) applied. *)
+From KS Require Import lib.Base model.ReadPath proofs.ReadPathProofs.
 Open Scope Z_scope.
-Example C03_nonvacuous : True. Proof. exact I. Qed.
+
+(* (1) For every history of appends / prepareFlush / upload success / upload failure
+   (either failed-flush policy), every index interval, start offset, fetch offset,
+   byte limit and cache state: a successful Read returns a non-empty prefix of the
+   bytes of a suffix [rest] of this partition's live batches (segments, then in-flight,
+   then buffered), and every live batch before that suffix ends below the requested
+   offset - i.e. the run starts at a batch boundary at or before the batch holding o
+   (at the first batch after o when o falls in a gap). *)
+Theorem C03_read_sound : forall iv rq start ops cached o max d,
+  Forall valid_op ops ->
+  let l := run (init_log iv rq start) ops in
+  read l cached o max = ROk d -> is_run (live l) o d.
+Proof. exact read_sound. Qed.
+Print Assumptions C03_read_sound.
+
+(* (2) ... and every live batch is an appended payload, byte for byte, apart from the
+   base offset patched into its first 8 bytes; nothing else is ever live. *)
+Theorem C03_live_are_appended : forall iv rq start ops,
+  Forall (appended_by ops) (live (run (init_log iv rq start) ops)).
+Proof. exact live_appended. Qed.
+Print Assumptions C03_live_are_appended.
+
+(* (3) The three ways Read obtains the bytes of a flushed segment - cache hit +
+   sliceCachedSegment, S3 range read, full download + sliceCachedSegment - return the
+   same result for ANY index entries, offset and limit, provided the registered size
+   is the object's size ... *)
+Theorem C03_paths_agree_segment : forall s o max,
+  s_size s = zlen (s_data s) -> read_uncached s o max = read_cached s o max.
+Proof. exact (paths_agree_seg true). Qed.
+Print Assumptions C03_paths_agree_segment.
+
+(* ... hence on every reachable log a cached and an uncached Read agree. *)
+Theorem C03_paths_agree : forall iv rq start ops o max,
+  Forall valid_op ops ->
+  let l := run (init_log iv rq start) ops in
+  read l true o max = read l false o max.
+Proof. exact read_paths_agree. Qed.
+Print Assumptions C03_paths_agree.
+
+(* header / footer lengths the slicing relies on *)
+Theorem C03_segment_layout : forall b c t crc last,
+  zlen (build_header b c t) = segment_header_len /\ zlen (build_footer crc last) = segment_footer_len.
+Proof. intros; split; [apply header_len|apply footer_len]. Qed.
+Print Assumptions C03_segment_layout.
+
+Definition p61 (marker : Z) (lod : Z) : bytes :=
+  repeat marker 23 ++ u32 lod ++ repeat marker 30 ++ u32 (lod + 1).
+
+(* The defect fixed by fixes/C03-flush-window-read-order.patch, on the HEAD model
+   ([read_head]): batch [0,4] is in flight, batch [5,9] is buffered, Read(2) answers
+   with the buffered batch (base offset 5) - records 2..4 are skipped; the fixed
+   order returns the in-flight batch. *)
+Example C03_head_flush_window_witness :
+  let l := run (init_log 1 false 0) [OAppend (p61 7 4); OPrepare 0 0; OAppend (p61 9 4)] in
+  read_head l false 2 1000 = ROk (b_bytes (nth 1 (live l) dflt)) /\
+  b_base (nth 1 (live l) dflt) = 5 /\
+  read l false 2 1000 = ROk (b_bytes (nth 0 (live l) dflt)).
+Proof. vm_compute. repeat split. Qed.
+
+(* non-vacuity: a sparse index, a read that starts before the batch holding o, a
+   snapped read after a dropped flush, a read served from the flush window *)
+Example C03_nonvacuous :
+  let ops := [OAppend (p61 1 0); OAppend (p61 2 1); OAppend (p61 3 0); OAppend (p61 4 2);
+              OPrepare 5 6; OCommit; OAppend (p61 5 0); OPrepare 7 8; OFail;
+              OAppend (p61 6 1); OPrepare 9 10; OAppend (p61 7 0)] in
+  let l := run (init_log 3 false 0) ops in
+  Forall valid_op ops /\
+  map ie_off (s_entries (nth 0 (l_segs l) (mkSeg 0 0 0 [] [] []))) = [0; 4] /\
+  map b_base (live l) = [0; 1; 3; 4; 8; 10] /\
+  read l false 3 61 = ROk (b_bytes (nth 0 (live l) dflt)) /\       (* starts at the entry for 0 *)
+  read l true 7 200 = ROk (b_bytes (nth 4 (live l) dflt)) /\       (* offset 7 was dropped: first batch after *)
+  read l true 9 0 = ROk (b_bytes (nth 4 (live l) dflt)) /\         (* flush window *)
+  read l true 11 1 = ROutOfRange.
+Proof.
+  vm_compute. split; [|repeat split].
+  repeat constructor; intros; discriminate.
+Qed.
